@@ -270,11 +270,12 @@ Lemma cc_advertised_accepted c statics st n now r cl :
   has_grant GClientCredentials (c_grants cl) = true ->
   validate_binding c cl (t_bind r) no_opts = None ->
   are_scopes_allowed (c_scopes cl) (cf_scopes c) (t_scope r) = true ->
-  validate_resources c (cf_resources c) (t_resources r) = true -> t_hg r = HgOk ->
+  validate_resources c (cf_resources c) (t_resources r) = true ->
+  validate_details_types c (t_auth_details r) = true -> t_hg r = HgOk ->
   exists t, snd (run_seq (cc_grant (mkWorld c statics) n now r) st) = OTokens t.
 Proof.
-  intros H1 H2 H3 H4 H5 H7 H6. unfold cc_grant. cbn. rewrite H1. cbn.
-  rewrite run_seq_bind, run_authenticated, H2. cbn. rewrite H3, H4, H5, H7, H6. cbn.
+  intros H1 H2 H3 H4 H5 H7 H8 H6. unfold cc_grant. cbn. rewrite H1. cbn.
+  rewrite run_seq_bind, run_authenticated, H2. cbn. rewrite H3, H4, H5, H7, H8, H6. cbn.
   destruct (make_token n cl GClientCredentials) as [tv tid]. cbn. eexists. reflexivity.
 Qed.
 
